@@ -42,7 +42,7 @@ Inductive report :=
 | RDecMode (mode status : N)
 | RDevAttrs (attrs : list N)
 | RKittyImage (id : N) (placement : option N) (error : option (list N))
-| RColor (name : tcolor) (c : rgba) (form : cform) (upper : bool) (e : osc_end)
+| RColor (name : tcolor) (r g b : N) (form : cform) (upper : bool) (e : osc_end)   (* channels as transmitted: 4 / 8 / 12 / 16 bits *)
 | RTermcapOk (caps : list (list N * list N)) (upper : bool)
 | RTermcapFail (names : list (list N)) (upper : bool)
 | RPaste (text : list N)
@@ -88,22 +88,26 @@ Definition mouse_name (code : N) : option mname :=
     else Some (if b =? 0 then MLeft else if b =? 1 then MMiddle else if b =? 2 then MRight else MMove).
 Definition mouse_mods (code : N) : N := (code / 4) mod 8.
 
-(* a channel value 0..255 written with `n` hex digits, scaled as XParseColor's rgb: syntax *)
-Definition chan (form : cform) (upper : bool) (v : N) : list N :=
-  match form with
-  | Rgb1 => [hex_digit upper (v / 17)]
-  | Rgb2 | Hash2 => hex2 upper v
-  | Rgb3 => hex2 upper v ++ [hex_digit upper (v / 16)]
-  | Rgb4 => hex2 upper v ++ hex2 upper v
-  end.
+(* XParseColor: rgb:<r>/<g>/<b> with 1..4 hex digits per channel, "scaled": an n-digit value h
+   stands for the 16-bit intensity h * 65535 / (16^n - 1); #rrggbb gives 8 bits per channel.  The
+   library's colours have 8 bits per channel: the most significant byte of the 16-bit intensity
+   (what an X server does for 8-bit visuals). *)
+Definition chan_digits (form : cform) : nat :=
+  match form with Rgb1 => 1 | Rgb2 | Hash2 => 2 | Rgb3 => 3 | Rgb4 => 4 end%nat.
+Definition chan_bound (form : cform) : N := 16 ^ N.of_nat (chan_digits form).
+Definition scale8 (form : cform) (v : N) : N := (v * 65535 / (chan_bound form - 1)) / 256.
 
-Definition color_spec (c : rgba) (form : cform) (upper : bool) : list N :=
-  match c with
-  | RGBA r g b _ =>
-      match form with
-      | Hash2 => [35] ++ chan form upper r ++ chan form upper g ++ chan form upper b
-      | _ => [114; 103; 98; 58] ++ chan form upper r ++ [47] ++ chan form upper g ++ [47] ++ chan form upper b
-      end
+Fixpoint hex_n (upper : bool) (n : nat) (v : N) : list N :=
+  match n with
+  | O => []
+  | S k => hex_n upper k (v / 16) ++ [hex_digit upper (v mod 16)]
+  end.
+Definition chan (form : cform) (upper : bool) (v : N) : list N := hex_n upper (chan_digits form) v.
+
+Definition color_spec (r g b : N) (form : cform) (upper : bool) : list N :=
+  match form with
+  | Hash2 => [35] ++ chan form upper r ++ chan form upper g ++ chan form upper b
+  | _ => [114; 103; 98; 58] ++ chan form upper r ++ [47] ++ chan form upper g ++ [47] ++ chan form upper b
   end.
 
 (* xterm ctlseqs, "PC-Style Function Keys" and "VT220-Style Function Keys": cursor keys CSI A..D,
@@ -175,10 +179,10 @@ Definition print (r : report) : list N :=
       [27; 95; 71] ++ [105; 61] ++ digits id
       ++ (match placement with Some p => [44; 112; 61] ++ digits p | None => [] end)
       ++ [59] ++ (match error with None => [79; 75] | Some msg => msg end) ++ ST
-  | RColor name c form upper e =>
+  | RColor name r g b form upper e =>
       [27; 93]
       ++ (match name with TFg => [49; 48] | TBg => [49; 49] | TPalette i => [52; 59] ++ digits i end)
-      ++ [59] ++ color_spec c form upper ++ (match e with EndST => ST | EndBEL => [7] end)
+      ++ [59] ++ color_spec r g b form upper ++ (match e with EndST => ST | EndBEL => [7] end)
   | RTermcapOk caps upper =>
       [27; 80; 49; 43; 114]
       ++ join_with [59] (map (fun kv => hex_string upper (fst kv) ++ [61] ++ hex_string upper (snd kv)) caps) ++ ST
@@ -231,7 +235,7 @@ Definition denote (tab : list (list N * (kname * N))) (r : report) : tev :=
   | RDecMode mode status => EDecMode mode status
   | RDevAttrs attrs => EDevAttrs (sort_dedup attrs)
   | RKittyImage id placement error => EKittyImage id placement error
-  | RColor name c _ _ _ => EColor name c
+  | RColor name r g b form _ _ => EColor name (RGBA (scale8 form r) (scale8 form g) (scale8 form b) 255)
   | RTermcapOk caps _ => ETermcap (map (fun kv => (fst kv, Some (snd kv))) caps)
   | RTermcapFail names _ => ETermcap (map (fun k => (k, None)) names)
   | RPaste text => EPaste text
@@ -309,10 +313,9 @@ Section Wf.
            | None => true
            | Some msg => utf8_valid msg && forallb text_byte_ok msg && negb (bytes_eqb msg [79; 75])
            end
-    | RColor name (RGBA r g b a) form upper e =>
-        (r <? 256) && (g <? 256) && (b <? 256) && (a =? 255)
+    | RColor name r g b form upper e =>
+        (r <? chan_bound form) && (g <? chan_bound form) && (b <? chan_bound form)
         && match name with TPalette i => i <? 256 | _ => true end
-        && match form with Rgb1 => (r mod 17 =? 0) && (g mod 17 =? 0) && (b mod 17 =? 0) | _ => true end
     | RTermcapOk caps upper =>
         forallb (fun kv => name_ok (fst kv) && name_ok (snd kv)) caps && keys_increasing (map fst caps)
     | RTermcapFail names upper =>
